@@ -313,3 +313,124 @@ def build_window(spec):
     if a == "gamma":
         return filters.GammaWindow(order=spec["order"], peak=spec["peak"])
     raise core.HarnessError("unknown window %r" % a)
+
+
+# --------------------------------------------------------------------------- computers
+
+def ms_for(samples, rate):
+    """A millisecond value that the constructor's int(0.001*ms*rate) maps back to `samples`
+    (the +0.5 sample margin keeps float round-off from flooring to samples-1)."""
+    return (samples + 0.5) * 1000.0 / rate
+
+
+@st.composite
+def stft_specs(draw, bank=None, max_len=64, rates=(1000,), default_len=False):
+    b = draw(bank if bank is not None else bank_specs(rates=list(rates), max_filts=4, allow_l2="gabor"))
+    L = draw(st.one_of(st.integers(1, max_len), st.integers(1, 12), st.sampled_from([2, 3, 4, 5, 8, 16, 25, 32])))
+    S = draw(st.one_of(st.integers(1, L), st.integers(1, max(1, L // 2)), st.just(L), st.just(1)))
+    style = draw(st.sampled_from(["causal", "centered", "centered", None]))
+    spec = {
+        "kind": "stft",
+        "bank": b,
+        "L": None if default_len else L,
+        "S": S,
+        "frame_style": style,
+        "include_energy": draw(st.booleans()),
+        "pad": draw(st.booleans()),
+        "window": draw(st.one_of(st.none(), window_specs())),
+        "use_log": draw(st.booleans()),
+        "use_power": draw(st.booleans()),
+        "kaldi_shift": draw(st.booleans()),
+    }
+    return spec
+
+
+def build_stft(spec, bank=None):
+    from pydrobert.speech.compute import ShortTimeFourierTransformFrameComputer as STFT
+
+    bank = build_bank(spec["bank"]) if bank is None else bank
+    rate = spec["bank"]["sampling_rate"]
+    return STFT(
+        bank,
+        frame_length_ms=None if spec["L"] is None else ms_for(spec["L"], rate),
+        frame_shift_ms=ms_for(spec["S"], rate),
+        frame_style=spec["frame_style"],
+        include_energy=spec["include_energy"],
+        pad_to_nearest_power_of_two=spec["pad"],
+        window_function=None if spec["window"] is None else build_window(spec["window"]),
+        use_log=spec["use_log"],
+        use_power=spec["use_power"],
+        kaldi_shift=spec["kaldi_shift"],
+    )
+
+
+@st.composite
+def si_specs(draw, bank=None, rates=(1000,)):
+    b = draw(bank if bank is not None else bank_specs(rates=list(rates), max_filts=3, allow_l2="gabor"))
+    spec = {
+        "kind": "si",
+        "bank": b,
+        # frame shift: an absolute wish and a fraction of the admissible range; build_si clips it
+        "S": draw(st.one_of(st.integers(1, 40), st.integers(1, 6))),
+        "S_top": draw(st.sampled_from([False, False, False, True])),  # use the largest admissible shift
+        "frame_style": draw(st.sampled_from(["causal", "centered", None])),
+        "include_energy": draw(st.booleans()),
+        "pad": draw(st.booleans()),
+        "window": draw(st.one_of(st.none(), window_specs())),
+        "use_power": draw(st.booleans()),
+        "use_log": draw(st.booleans()),
+    }
+    return spec
+
+
+def si_shift_bound(bank):
+    """Largest frame shift + 1 admitted by *every* reading of 'shorter than the longest filter's
+    one-sided support' (from sample 0 / from the support's centre), from public attributes."""
+    sup = bank.supports
+    from_zero = max(r for l, r in sup)
+    from_centre = max((r - l) // 2 for l, r in sup)
+    return min(from_zero, from_centre)
+
+
+def build_si(spec, bank=None):
+    from pydrobert.speech.compute import ShortIntegrationFrameComputer as SI
+
+    bank = build_bank(spec["bank"]) if bank is None else bank
+    bound = si_shift_bound(bank)
+    if bound < 2:
+        raise core.Discard()
+    S = bound - 1 if spec.get("S_top") else min(spec["S"], bound - 1)
+    rate = spec["bank"]["sampling_rate"]
+    comp = SI(
+        bank,
+        frame_shift_ms=ms_for(S, rate),
+        frame_style=spec["frame_style"],
+        include_energy=spec["include_energy"],
+        pad_to_nearest_power_of_two=spec["pad"],
+        window_function=None if spec["window"] is None else build_window(spec["window"]),
+        use_power=spec["use_power"],
+        use_log=spec["use_log"],
+    )
+    return comp
+
+
+def computer_specs():
+    return st.one_of(stft_specs(), si_specs())
+
+
+def build_computer(spec, bank=None):
+    return build_stft(spec, bank) if spec["kind"] == "stft" else build_si(spec, bank)
+
+
+@st.composite
+def cut_lists(draw, n, L=8, S=4, max_cuts=8):
+    """Cut points in [0, n]; duplicates give empty chunks; weight on 0, n and frame boundaries."""
+    special = [0, n, 1, n - 1, L, S, L // 2, L // 2 + 1, L - 1, L + 1, 2 * S, S + 1, S - 1]
+    special = [c for c in special if 0 <= c <= n]
+    k = draw(st.integers(0, max_cuts))
+    cuts = draw(st.lists(st.one_of(st.integers(0, max(n, 0)), st.sampled_from(special or [0])), min_size=k, max_size=k))
+    if draw(st.sampled_from([False, False, False, True])) and n > 0:
+        # a run of single-sample chunks
+        a = draw(st.integers(0, n - 1))
+        cuts += list(range(a, min(n, a + draw(st.integers(1, 6))) + 1))
+    return sorted(cuts)
